@@ -4,7 +4,7 @@
    `abandon_expensive_computations == nullptr'. *)
 From Coq Require Import List Bool Arith ZArith QArith.
 Require Import PPLV.Base.FM PPLV.Base.Sys.
-Require Import PPLV.Powerset.PS PPLV.Powerset.PSDom PPLV.Powerset.UnionIncl PPLV.Powerset.PSPoly PPLV.Powerset.Cow.
+Require Import PPLV.Powerset.PS PPLV.Powerset.PSDom PPLV.Powerset.UnionIncl PPLV.Powerset.PSPoly PPLV.Powerset.Cow PPLV.Powerset.PP.
 Import ListNotations.
 
 (* omega-reduction never changes the union ... *)
@@ -13,8 +13,9 @@ Proof. exact T_omega_reduce_union. Qed.
 (* ... even on the hurry-up path (collapse in the middle) no point is lost *)
 Theorem omega_reduce_never_loses : forall d, laws d -> forall hurry s p, Den d s p -> Den d (Omega d hurry s) p.
 Proof. exact T_omega_reduce_superset. Qed.
-(* afterwards the flag is set and tells the truth: no disjunct is bottom, none entails one at another position *)
-Theorem omega_reduce_reduced : forall d, laws d -> forall s, Wf d s ->
+(* afterwards the flag is set and tells the truth: no disjunct is bottom, none entails one at another position.
+   Partial: proved for the null hurry-up oracle; the statement for every oracle is PSDom.omega_reduce_reduced_full *)
+Theorem omega_reduce_reduced_partial : forall d, laws d -> forall s, Wf d s ->
   Flag d (Omega d never s) = true /\ Really_reduced d (Omega d never s).
 Proof. exact T_omega_reduce_reduced. Qed.
 Theorem omega_reduce_adds_nothing : forall d, laws d -> forall s x, In x (seq _ (Omega d never s)) -> In x (seq _ s).
@@ -106,6 +107,17 @@ Proof. exact PSPoly.difference_decided. Qed.
 Theorem unions_disjoint_exact : forall n Bs As r,
   unions_disjoint n As Bs = Some r -> (r = true <-> forall p, covered As p -> covered Bs p -> False).
 Proof. exact UnionIncl.unions_disjoint_exact. Qed.
+
+(* linear_partition (transcribed over the reference polyhedra): first component p /\ q; the residues cover
+   exactly q \ p and are pairwise disjoint; the difference built from it is the exact set difference *)
+Theorem linear_partition_spec : forall n p q,
+  let (pq, rs) := linear_partition n p q in
+  (forall x, sat_sys pq x <-> sat_sys p x /\ sat_sys q x) /\
+  (forall x, covered rs x <-> sat_sys q x /\ ~ sat_sys p x) /\
+  (forall r1 r2 a b x, rs = r1 ++ a :: r2 -> In b r2 -> sat_sys a x -> sat_sys b x -> False).
+Proof. exact PP.linear_partition_spec. Qed.
+Theorem difference_exact : forall n ys xs p, covered (difference n ys xs) p <-> covered xs p /\ ~ covered ys p.
+Proof. exact PP.difference_exact. Qed.
 
 (* copy on write: value semantics and reference counts, for every history *)
 Theorem cow_refines_values : forall (V : Type) n (hist : list (cmd V)) h,
